@@ -191,6 +191,14 @@ class LayerRule(
                 "Layer rule subjects cannot be specified in batch."
             )
 
+        if (
+            self._rule.rule_subjects
+            and self._rule._modules_to_check_to_be_specified_next
+        ):
+            raise ImproperlyConfigured(
+                "Only one layer can be specified as layer rule subject."
+            )
+
         layers = self._listify(layers)
         modules = self._get_all_modules_in_layers(layers)
 
